@@ -18,5 +18,6 @@ CONSTANTS
   CanonKinds = TRUE
   PoolAny = FALSE
   MaxPause = 0
+  MaxDown = 0
 INVARIANTS PrintViol NoViolation PrintSched
 CHECK_DEADLOCK FALSE
